@@ -5,6 +5,8 @@ Input : {"prios":[int,…], "events":[ev,…]}
      | {"ev":"drop","now":rat}
 Output: {"out":[{"req":rat|null,"reg":rat|null,"op":rat|null,"regRep":[[lo,hi]|null,…],"opRep":[…]},…]}
 (reports are listed per priority in "prios"; null for an event that sends no reports)
+Optional input "regPrios" / "opPrios" (harness/powerpath*.py: a pool subscribes to the reports of ITS group only):
+the priorities for which "regRep" / "opRep" are listed; each defaults to "prios".
 -/
 import Frequenz.Model.PowerManager
 import Frequenz.Model.JsonUtil
@@ -52,6 +54,12 @@ def runCase (j : Json) : Except String Json := do
   let evs ← getArr j "events"
   let priosJ ← getArr j "prios"
   let prios ← priosJ.toList.mapM (fun p => p.getInt?)
+  let optPrios (k : String) : Except String (List Int) :=
+    match j.getObjVal? k with
+    | .ok (.arr a) => a.toList.mapM (fun p => p.getInt?)
+    | _ => pure prios
+  let regPrios ← optPrios "regPrios"
+  let opPrios ← optPrios "opPrios"
   -- the harness subscribes to the report channels first, which installs the bounds tracker
   let mut st := { State.init with sb := some noBounds }
   let mut outs : Array Json := #[]
@@ -63,8 +71,8 @@ def runCase (j : Json) : Except String Json := do
       match (if reports then st.sb else none) with
       | none => [("regRep", Json.null), ("opRep", Json.null)]
       | some sb =>
-        [("regRep", Json.arr (prios.map (fun p => boundsJ (regReport st sb p).2)).toArray),
-         ("opRep", Json.arr (prios.map (fun p => boundsJ (opReport st sb p).2)).toArray)]
+        [("regRep", Json.arr (regPrios.map (fun p => boundsJ (regReport st sb p).2)).toArray),
+         ("opRep", Json.arr (opPrios.map (fun p => boundsJ (opReport st sb p).2)).toArray)]
     outs := outs.push (Json.mkObj ([("req", optRatJ req), ("reg", optRatJ st.reg.last),
       ("op", optRatJ st.op.last)] ++ reps))
   return Json.mkObj [("out", Json.arr outs)]
